@@ -46,10 +46,9 @@ HasFam(f) == \E j \in 1 .. Len(chain) : Steps[FamOf(chain[j][1])].fam = f
 Complete == /\ chain # <<>> /\ ts \in Sinkable
             /\ Params.needfam = "" \/ HasFam(Params.needfam)
 
-ASSUME TLCSet(1, {})
-Collect == IF Complete THEN TLCSet(1, TLCGet(1) \cup {chain}) ELSE TRUE
+\* every complete chain is printed on one line (parsed by lib/sem.py); a register would make the
+\* collection quadratic in the number of chains
+Collect == IF Complete THEN PrintT(ToString(<<"CHAIN", chain>>)) ELSE TRUE
 
-Post == LET q == SetToSeq(TLCGet(1)) IN
-        /\ ndJsonSerialize("chains.ndjson", [j \in 1 .. Len(q) |-> [chain |-> q[j]]])
-        /\ PrintT(<<"PROGSPACE", Len(q)>>)
+Post == PrintT(<<"PROGSPACE", TLCGet("distinct")>>)
 =============================================================================
